@@ -104,7 +104,7 @@ impl B {
     }
 }
 
-pub const ALL_PROPS: &[&str] = &["C01", "C02", "C03", "C04", "C05", "C06", "C07", "C08", "C09", "C10", "C11", "C12", "C13", "C14", "C15", "C16", "C17", "C18", "C20"];
+pub const ALL_PROPS: &[&str] = &["C01", "C02", "C03", "C04", "C05", "C06", "C07", "C08", "C09", "C10", "C11", "C12", "C13", "C14", "C15", "C16", "C17", "C18", "C19", "C20"];
 
 /// class for the output-elision differential (C04): extended class plus the eliding forms
 fn k04() -> en::Class {
@@ -387,6 +387,7 @@ pub fn units(prop: &str, tier: Tier) -> Option<Vec<Unit>> {
                 class("kstate-stream", &en::k_state(), pick(3, 3)).kind(KindId::Stream).cfg(CfgId::RichSt).probes(STATE).alarm(alarm).unit(),
             ]
         }
+        "C19" => eng_drops::unit_names().into_iter().map(|n| Unit::Custom { name: n.to_string(), run: Box::new(move |cx| eng_drops::run(n, tier, cx)) }).collect(),
         "C20" => {
             let alarm = PAN | NOE | CON;
             let mut v = vec![];
